@@ -68,14 +68,16 @@ def run(an: Analysis, rep):
     rep.rule("R03.5", "operand width thresholds and unit emission agree with the decoder", 4)
     rep.rule("R03.6", "no Optional line reaches arithmetic unguarded", 1)
     rep.rule("R03.7", "relaxation loop shape", 4)
+    from .common import purity
+    rep.run(purity, an, rep, "R03.P", ["to_code"])
     ci = table_class(an)
-    r031(an, rep, ci)
-    r032(an, rep, ci)
-    r033(an, rep, ci)
-    c08.r084(an, rep, rule="R03.4")
-    r035(an, rep)
-    r036(an, rep)
-    r037(an, rep)
+    rep.run(r031, an, rep, ci)
+    rep.run(r032, an, rep, ci)
+    rep.run(r033, an, rep, ci)
+    rep.run(c08.r084, an, rep, rule="R03.4")
+    rep.run(r035, an, rep)
+    rep.run(r036, an, rep)
+    rep.run(r037, an, rep)
     rep.stats.update(an.stats([an.interp("to_code", V)[0] for V in VERSIONS]))
     rep.assumptions += ["`assert` is accepted as a guard form (the repository's own convention); it vanishes under python -O"]
 
